@@ -187,6 +187,20 @@ def run_style(style):
                 rel['conserved_Sdown4'], extra=1e3)
             chk('conserved_Sup3', rel['conserved_Sup3'],
                 rel['conserved_Sup4'][1:])
+        if style != 'Tdown4':
+            chk('uup0=W/alpha', rel['uup0'], ref['W'] / ref['alpha'])
+            chk('uup3', rel['uup3'], cf['uup'][1:])
+            chk('velup3', rel['velup3'], ref['v'])
+            chk('velup4', rel['velup4'], np.concatenate(
+                [0 * ref['alpha'][None], ref['v']], axis=0))
+            chk('veldown4 spatial', rel['veldown4'][1:], cf['vd'])
+            chk('veldown4 time=beta.v', rel['veldown4'][0], np.einsum(
+                'i...,i...->...', ref['beta'], cf['vd']))
+            hd = np.linalg.det(np.moveaxis(np.moveaxis(
+                cf['h4'][1:, 1:], 0, -1), 0, -1))
+            chk('hdet', rel['hdet'], hd, extra=10)
+        chk('dttau=sqrt|alpha^2-beta.beta|', rel['dttau'], np.sqrt(np.abs(
+            -cf['g4'][0, 0])), extra=10)
         T = rel['Tdown4']
         chk('Tdown4=rho u_m u_n+p h_mn (indices down)', T, cf['T'])
         chk('rho_n=E', rel['rho_n'], cf['E'], extra=10)
